@@ -322,7 +322,9 @@ def _renames(ck: Checker) -> None:
         return None
 
     fills = [(n, c) for n in g.nodes.values() for c in calls_at(n) if is_method_call(c, "append", "appendleft") and _slot(c) is not None]
-    ck.floor("C08.renames", len(fills), 1, "fills of the per-hash deletion table")
+    if not fills:
+        ck.fail("C08.renames", fn, fn.node, f"deletions are not filed into per-hash queues (`{table}[hash].append(deletion)`): with a plain mapping several deletions that share a hash overwrite each other and vanish from the diff",
+                construct=f"{table} / per-hash queue")
     for n, c in fills:
         key = _slot(c)
         keyalts = [norm(z) for z in expand1(prog, fn, key, levels=2)]
